@@ -195,20 +195,20 @@ def c14(ctx):
         # change, the two no-knowledge forgers
         ex("mut", 3, both, "C14_mut") if q else ex("mut", 5, mini, "C14_mut"),
         # larger shapes (4 x 4 x 3 over 4 variables, 4 bases) by simulation
-        sim("sat", 40 if q else 3000, "C14_sim_sat"),
-        sim("mut", 40 if q else 3000, "C14_sim_mut"),
+        sim("sat", 40 if q else 800, "C14_sim_sat"),
+        sim("mut", 40 if q else 800, "C14_sim_mut"),
     ]
     if not q:   # trivial Or / And nodes kept ("full" wrapping) on the smaller universes
         jobs += [ex("sat", 5, both, "C14_sat_wraps"), ex("mut", 4, both, "C14_mut_wraps")]
     outs = par(ctx, jobs)
     tr = os.path.join(ctx.tmp, "sigma_ctx_calls.ndjson")
-    ctx.run_vh("sigma", ["-in", outs[0], "-max", 2500 if q else 150000, "-deniable", 5 if q else 3, "-trace", tr, "-tracemax", 150 if q else 3000], binary=b)
-    ctx.run_vh("sigma", ["-in", outs[1], "-max", 2500 if q else 0, "-deniable", 5 if q else 3], binary=b)
+    ctx.run_vh("sigma", ["-in", outs[0], "-max", 2500 if q else 40000, "-deniable", 5 if q else 4, "-trace", tr, "-tracemax", 150 if q else 2000], binary=b)
+    ctx.run_vh("sigma", ["-in", outs[1], "-max", 2500 if q else 40000, "-deniable", 5 if q else 4], binary=b)
     tr2 = os.path.join(ctx.tmp, "sigma_ctx_calls_sim.ndjson")
-    ctx.run_vh("sigma", ["-in", outs[2], "-max", 800 if q else 0, "-deniable", 2, "-trace", tr2, "-tracemax", 60 if q else 1000], binary=b)
-    ctx.run_vh("sigma", ["-in", outs[3], "-max", 800 if q else 0, "-deniable", 2], binary=b)
+    ctx.run_vh("sigma", ["-in", outs[2], "-max", 800 if q else 12000, "-deniable", 2, "-trace", tr2, "-tracemax", 60 if q else 600], binary=b)
+    ctx.run_vh("sigma", ["-in", outs[3], "-max", 800 if q else 12000, "-deniable", 2], binary=b)
     for bh in outs[4:]:
-        ctx.run_vh("sigma", ["-in", bh, "-max", 40000, "-deniable", 3], binary=b)
+        ctx.run_vh("sigma", ["-in", bh, "-max", 12000, "-deniable", 3], binary=b)
     if ctx.cov["skipped"].get("deniable-session-timeout"):
         raise Broken("%d deniable clique sessions did not terminate within 5 minutes" % ctx.cov["skipped"]["deniable-session-timeout"])
     # code -> spec: the recorded Put / Get / PubRand / PriRand calls of the real provers and verifiers are behaviours of
@@ -248,8 +248,8 @@ def c14(ctx):
             "every public point is defined from the model's secrets, so branch truth is decided by the model; a falsified point is an unrelated random point",
             "a verifier predicate that is a logically equivalent reordering is not judged; in the interactive protocol a verifier predicate implied by the proven one (last And-term dropped) is not judged (MustDen)",
             "SigmaTrace (commit-before-challenge, item kinds / counts, private randomness before the challenge) is extra coverage and never changes the exit status",
-            "quick tier replays a (seed, suite)-dependent sample of 2500 behaviours per suite of each exhaustive set (800 of each simulated set); thorough replays all tampering cases and 150000 of the satisfaction cases per suite",
-        ], exhaustive=not q)
+            "TLC enumeration is exhaustive in both tiers; the replay is a (seed, suite)-dependent sample: quick 2500 behaviours per suite of each exhaustive set and 800 of each simulated set, thorough 40000 per suite of each exhaustive set and 12000 of each simulated / full-wrapping set",
+        ], exhaustive=False)
 
 
 PROPS = {"C13": c13, "C14": c14, "C15": c15}
